@@ -47,6 +47,19 @@ def base_instances(rng, per_gate=2):
     out.append(qp.QubitCarry(wires=rng.sample(LABELS, 4)))
     for n in (1, 2, 3):
         out.append(qp.QFT(wires=rng.sample(LABELS, n)))
+    # matrix-defined operators with Clifford+T (ring level 3) data: diagonal and generic targets
+    import numpy as _np
+    mats = {"S": qp.matrix(qp.S(0)), "T": qp.matrix(qp.T(0)), "Z": qp.matrix(qp.Z(0)), "H": qp.matrix(qp.H(0)),
+            "TH": qp.matrix(qp.T(0)) @ qp.matrix(qp.H(0)), "HTS": qp.matrix(qp.H(0)) @ qp.matrix(qp.T(0)) @ qp.matrix(qp.S(0)),
+            "SXT": qp.matrix(qp.SX(0)) @ qp.matrix(qp.T(0))}
+    for nm, m_ in mats.items():
+        out.append(qp.QubitUnitary(m_, wires=rng.sample(LABELS, 1)))
+        for nc, cv in ((1, [1]), (2, [1, 1]), (2, [0, 1]), (3, [1, 0, 1])):
+            ws = rng.sample(LABELS, nc + 1)
+            out.append(qp.ControlledQubitUnitary(m_, wires=ws, control_values=cv))
+    out.append(qp.QubitUnitary(_np.kron(mats["TH"], mats["S"]), wires=rng.sample(LABELS, 2)))
+    out.append(qp.QubitUnitary(qp.matrix(qp.CNOT([0, 1])) @ _np.kron(mats["H"], mats["T"]), wires=rng.sample(LABELS, 2)))
+    out.append(qp.DiagonalQubitUnitary(_np.diag(_np.kron(mats["T"], mats["S"])), wires=rng.sample(LABELS, 2)))
     return out
 
 
